@@ -130,7 +130,7 @@ def _selector(rule_path, mode, search, only_addr, input_path=None):
             h = zlib.crc32(f.read())
     except OSError:
         return 7
-    if input_path is not None:
+    if input_path is not None and os.path.isfile(input_path):  # (a pipe is not read here: it delivers once)
         try:
             with open(input_path, "rb") as f:
                 h = zlib.crc32(f.read(65536), h)
@@ -156,11 +156,12 @@ def _library_with_config():
     return _LIB_WITH_CONFIG
 
 
-def match_files(rule_path, input_path, mode="list", search="all", only_addr=False, macros=None, binary=False, want_regex=False):
+def match_files(rule_path, input_path, mode="list", search="all", only_addr=False, macros=None, binary=False, want_regex=False, single_read=False):
     import logging
 
     selector = _selector(rule_path, mode, search, only_addr)
-    reuse = bool(REUSE_MOD) and (selector % REUSE_MOD == 0 or _selector(rule_path, mode, search, only_addr, input_path) % REUSE_MOD == 0)
+    # (single_read: the input can be read once only - a pipe)
+    reuse = not single_read and bool(REUSE_MOD) and (selector % REUSE_MOD == 0 or _selector(rule_path, mode, search, only_addr, input_path) % REUSE_MOD == 0)
     extra_lib = False
     if macros is None and LIBCFG_MOD and selector % LIBCFG_MOD == 1:
         try:
